@@ -340,8 +340,8 @@ package internals
 // ---- data providers (C14): a provider is a read-only view of a record.
 //@ specfun dpval(Iface, String) Iface
 //@ specfun dpkey(Iface, reflect.StructField, String) String
-// wfdata: the value is plain data or a provider factory that was not consumed yet (abstract; see StructSchema.process)
-//@ specfun wfdata(Iface) Bool
+// wfdata: the value is plain data or a provider factory that was not consumed yet
+//@ spec wfdata(d) = istype(d, DpFactory) ==> (d.(DpFactory) != nil && !dpinvoked(d.(DpFactory)))
 //@ iface DataProvider.GetByField(self, field, fallback)
 //@   requires self != nil
 //@   pure
